@@ -51,7 +51,13 @@ func init() {
 	// received in place: every subscriber still gets the published bytes (all interleavings)
 	vexplore.Register("C06", func(tier string) []*vexplore.Scenario {
 		b := map[string]int{"quick": 1, "thorough": 2}[tier]
-		return []*vexplore.Scenario{{Name: "pub-fanout-inproc-subscribers-overwrite-in-place", Mode: "sched", Bound: b, Cfg: vsched.Config{AtomicPoints: true}, Reset: kit.ResetGlobals, Body: fanoutPubSub}}
+		return []*vexplore.Scenario{{Name: "pub-fanout-inproc-subscribers-overwrite-in-place", Mode: "sched", Bound: b, Cfg: vsched.Config{AtomicPoints: true}, Reset: kit.ResetGlobals, Body: fanoutPubSub},
+			{Name: "pub-fanout-one-stream-connection-reset-mid-write", Mode: "sched", Bound: b - 1, Reset: kit.ResetGlobals, Body: streamWriteError}}
+	})
+	// C15: the frames written to the subscriber that stays are the published messages, whatever happens to the other connection
+	vexplore.Register("C15", func(tier string) []*vexplore.Scenario {
+		b := map[string]int{"quick": 1, "thorough": 2}[tier]
+		return []*vexplore.Scenario{{Name: "fanout-one-stream-connection-reset-mid-write", Mode: "sched", Bound: b - 1, Reset: kit.ResetGlobals, Body: streamWriteError}}
 	})
 }
 
